@@ -859,6 +859,11 @@ class BaseStorer(ABC):
             raise ValueError("num_output_per_event_ is not set")
         if self.particle_list_ is None:
             raise ValueError("particle_list_ is not set")
+        if len(self.num_output_per_event_) == 0:
+            # No events are held ([[]] is only a placeholder): nothing to recount
+            if self.particle_list_ == []:
+                self.particle_list_ = [[]]
+            return
         if self.num_output_per_event_.ndim == 1:
             # Handle the case where num_output_per_event_ is a one-dimensional array
             self.num_output_per_event_[1] = len(self.particle_list_[0])
